@@ -594,7 +594,10 @@ func execAlgCase(c *Sx, st *algStats) (out *Sx, viols []Violation) {
 					report("unequal-sets-equal", fmt.Sprintf("pool[%d]=%s and pool[%d]=%s differ but Equal=%v strings %q %q", i, dd[i], j, dd[j], eq, a.String(), b.String()), opIdx)
 				}
 				cin := a.ContainedIn(b)
-				if noNames(na) && cin != ra.subsetOf(rb) {
+				// the full set holds every port name as well: it is not contained in a set that excludes some name
+				// (numerically full, not in AllowAll form), whatever the numeric points say
+				expectIn := ra.subsetOf(rb) && !(a.AllowAll && !noNames(xb))
+				if noNames(na) && cin != expectIn {
 					report("containedin", fmt.Sprintf("ContainedIn(pool[%d]=%s, pool[%d]=%s)=%v", i, dd[i], j, dd[j], cin), opIdx)
 				}
 				if cin && !ra.subsetOf(rb) {
